@@ -6,6 +6,10 @@ FLAVOURS = {
                  ldflags=['-fsanitize=address,undefined', '-rdynamic']),
     'opt': dict(cxx='g++', slow=1, cflags=['-O2', '-g1', '-DNDEBUG'], ldflags=['-rdynamic']),
     'tsan': dict(cxx='g++', slow=10, cflags=['-O1', '-g1', '-DNDEBUG', '-fsanitize=thread'], ldflags=['-fsanitize=thread', '-rdynamic']),
+    'fuzz': dict(cxx='clang++', slow=4,
+                 cflags=['-O1', '-g', '-DNDEBUG', '-fno-omit-frame-pointer', '-fsanitize=fuzzer-no-link,address,undefined', '-fno-sanitize-recover=all',
+                         '-fno-sanitize=object-size'],
+                 ldflags=['-fsanitize=fuzzer,address,undefined', '-rdynamic']),
     'dbg': dict(cxx='g++', slow=3, cflags=['-O0', '-g1'], ldflags=['-rdynamic']),
 }
 
